@@ -18,6 +18,7 @@ pub const FAMILIES: &[&str] = &[
     "pcsaft",
     "pcsaft-assoc",
     "pcsaft-crossassoc",
+    "pcsaft-solvating",
     "pcsaft-polar",
     "epcsaft-noions",
     "gc-pcsaft",
